@@ -1,7 +1,7 @@
 (* Property C01 - only statements, each closed by [exact].  (partial: see manifest.d/C01.json) *)
 From Coq Require Import ZArith List Bool String.
 Import ListNotations.
-Require Import UV.C01.Model UV.Gen.Stubs UV.C01.MachineProofs UV.C01.StubTheorems UV.C01.ArchCtxProofs UV.C01.Proofs UV.C01.ShadowProofs UV.C01.ShadowRecover UV.C01.LifeProofs.
+Require Import UV.C01.Model UV.Gen.Stubs UV.C01.MachineProofs UV.C01.StubTheorems UV.C01.ArchCtxProofs UV.C01.Proofs UV.C01.ShadowProofs UV.C01.ShadowRecover UV.C01.LifeProofs UV.C01.StopKinds.
 Local Open Scope Z_scope.
 
 (* ---- (i) the assembly stubs, as generated from arch/x86_64/*.S of the current tree ----
@@ -204,6 +204,26 @@ Theorem C01_finish_saved_ip_refuted :
   match rs s with f :: _ => fip f = Tramp KM | [] => False end.
 Proof. exact stop_saved_ip_is_trampoline_refuted. Qed.
 Print Assumptions C01_finish_saved_ip_refuted.
+
+(* ... spelled out for EVERY mix of hook kinds that share one return slot (tail calls: -pg function -> -pg function, an
+   instrumented function of a -pg shared library called through the PLT, a library function tail-calling an instrumented
+   callback, an instrumented function tail-calling through the PLT): the caller stores ra into slot d, any non-empty
+   sequence [ks] of -pg/fentry/dynamic (KM) and PLT (KP) entries runs on that slot, tracing is finished elsewhere; the first
+   exit hook hands back ra - whatever trampoline its entry had saved -, the slot holds ra, no shadow frame is left *)
+Theorem C01_finish_exit_any_kinds : forall (ks : list kind) (d ra : nat) (m : nat -> word),
+  ks <> [] ->
+  let s := fst (run_ops (mkSt (upd m d (Real ra)) []) (enters d ks)) in
+  exists s', exit_stop s = Some (s', Real ra) /\ rs s' = [] /\ mem s' d = Real ra.
+Proof. exact finish_exit_any_kinds. Qed.
+Print Assumptions C01_finish_exit_any_kinds.
+
+(* reloading the slot only when the saved address is mcount_return (a seeded regression) hands plthook_return back for an
+   instrumented library function called through the PLT *)
+Theorem C01_finish_reload_km_only_refuted :
+  let s := fst (run_ops st0 [OPush 1%nat 100%nat; OEnter HP 1%nat; OEnter (HM false) 1%nat]) in
+  option_map snd (exit_stop_km_only s) = Some (Tramp KP) /\ option_map snd (exit_stop s) = Some (Real 100).
+Proof. exact finish_reload_km_only_refuted. Qed.
+Print Assumptions C01_finish_reload_km_only_refuted.
 
 (* for all thread schedules: the shadow state is per thread (mtd is thread-local, stacks are disjoint); in any
    interleaving [sched] of (thread, operation) pairs, a thread t that performs the operations of a call tree
